@@ -81,7 +81,17 @@ def gen_case(rng, supervised):
   else:
     idx, lab = gen.pairs_from(rng, X, y, int(rng.integers(6, 16)))
     pairs = X[idx]
-  region = str(rng.choice(['pd', 'pd', 'pd', 'not_pd', 'mostly_dissimilar']))
+  region = str(rng.choice(['pd', 'pd', 'pd', 'not_pd', 'mostly_dissimilar', 'defaults_small_scale']))
+  if region == 'defaults_small_scale':
+    # small-magnitude features (unit-normalised / rescaled data) with the DEFAULT balance_param = 0.5, sparsity_param = 0.01
+    prior_kind, prior, prior_arg = 'identity', 'identity', 'identity'
+    V0 = pairs[:, 0] - pairs[:, 1]
+    sc = 2.0 ** -2
+    while np.linalg.eigvalsh(np.eye(d) + 0.5 * sc * sc * (V0.T * lab).dot(V0)).min() < 0.25:
+      sc /= 2.0          # (small enough for the default balance_param to keep the graphical-lasso input positive definite)
+    X = X * sc
+    pairs = pairs * sc
+    alpha = 0.01
   if region == 'mostly_dissimilar' and not supervised:
     # every direction dominated by dissimilar pairs (an input matrix with several negative eigenvalues)
     lab = np.where(rng.random(len(lab)) < 0.2, 1, -1)
@@ -101,7 +111,9 @@ def gen_case(rng, supervised):
   V = pairs[:, 0] - pairs[:, 1]
   loss = (V.T * lab).dot(V)
   lam_neg = max(1e-12, -np.linalg.eigvalsh(loss).min())
-  if region == 'pd':
+  if region == 'defaults_small_scale':
+    balance = 0.5
+  elif region == 'pd':
     balance = float(2.0 ** np.floor(np.log2(0.5 * np.linalg.eigvalsh(P0).min() / lam_neg))) if lam_neg > 1e-9 else 0.5
     balance = min(balance, 0.5)
   elif region == 'mostly_dissimilar':
